@@ -40,6 +40,7 @@ def run(ctx):
             run_scenario(ctx, "C01", exe, sc, lb, stats, samples, *O, model=True, nrandom=2000, kinds=kinds)
         run_scenario(ctx, "C01", exe, F3, "F3", stats, samples, *O, model=True, nrandom=10000, kinds=["counter", "countervec_child"])
         run_scenario(ctx, "C01", exe, I3, "I3", stats, samples, *O, model=True, nrandom=10000, kinds=["intcounter", "intcountervec_child"])
+    prove_core(ctx)
     finish_cov(ctx, stats, samples, "AtomImpl exhaustively checked by TLC (Atomicity, NoLostIncrement, ReadsExplained, Monotone, Termination; also with spurious CAS failure); "
                "every edge replayed in the real Counter/IntCounter (standalone and as a vector child; local flush); every distinct history judged by CounterReads")
     ctx.assumptions += ["sequentially consistent executions; per-location coherence of relaxed loads is assumed from the Rust memory model",
